@@ -5,6 +5,7 @@ from fractions import Fraction
 
 from common import parse_rat, rat
 from oracles import MODES, round_ref
+from props import _qty
 
 ID = "C13"
 LEAN_TARGETS = ["QuantityModel.Props.C13"]
@@ -12,7 +13,12 @@ RULE = ("kernel cases: (x, y, mode|default) for _floordiv_rounded, (amount, "
         "quantum, mode) for _quantize_fraction and for Decimal.quantize on "
         "the internal (value, precision) pair; generated as exact ties, tie "
         "+/- epsilon, exact multiples, random; both signs of dividend and "
-        "divisor; all 8 modes explicit and as default. A case is non-trivial "
+        "divisor; all 8 modes explicit and as default. Quantity level: "
+        "q.quantize(quantum, mode) and round(q, n) in the predefined catalogue "
+        "and in random user histories (quantum given in any unit of the type, "
+        "negative quanta, another type, a type without reference unit, a "
+        "quantised type; the same value held as Decimal and as Fraction; ties "
+        "and near-ties). A case is non-trivial "
         "if the quotient is not integral; distinct by (op, mode source, "
         "mode, sign x, sign y, tie/near/other, parity of floor, floor mod 5)")
 EXHAUSTIVE = {}
@@ -93,6 +99,58 @@ def gen_cases(rng, tier):
                    ["quantfrac", rat(Fraction(v, 10 ** p)), rat(quant), m, d]]
             tag = "decquant+quantfrac"
         cases.append({"ops": ops, "fork": False, "tags": [tag, "mode:" + (m if m != "-" else "dflt:" + d)]})
+    # --- the quantity level: Quantity.quantize / round() around the kernels
+    n_ctx = 12 if tier == "thorough" else 3
+    ctxs = [_qty.predefined_ctx()] + [_qty.user_ctx(rng, rng.randint(8, 14)) for _ in range(n_ctx)]
+    for ctx in ctxs:
+        ops = []
+        lin = ctx.linear_units()
+        refless = [u for u in ctx.units if ctx.units[u]["scale"] is None]
+        for _ in range(120 if tier == "thorough" else 60):
+            m, d = mode_pair()
+            u = rng.choice(lin)
+            same = ctx.linear_units(ctx.units[u]["cls"])
+            v = rng.choice(same)
+            quant = Fraction(rng.choice([1, 1, 5, 25, 3, 7, 2]), rng.choice([1, 10, 100, 3, 8, 1000]))
+            if rng.random() < .2:
+                quant = -quant
+            # the quantum expressed in u, and an amount near a multiple / a tie of it
+            qu = quant * ctx.units[v]["scale"] / ctx.units[u]["scale"]
+            k = rng.randint(-40, 40)
+            shape = rng.random()
+            if shape < .3:
+                a = (k + Fraction(1, 2)) * qu
+            elif shape < .45:
+                a = (k + Fraction(1, 2)) * qu + Fraction(rng.choice([-1, 1]), 10 ** 9)
+            elif shape < .55:
+                a = k * qu
+            elif shape < .6:
+                a = Fraction(0)
+            else:
+                a = _qty.amount(rng)
+            r = rng.random()
+            if r < .62:
+                atok = rat(a) if rng.random() < .5 else "F:" + rat(a)
+                ops.append(["q_quantize", f"{atok}@{u}", f"{rat(quant)}@{v}", m, d])
+                if rng.random() < .5:
+                    # the same value in the other representation
+                    other = "F:" + rat(a) if not atok.startswith("F:") else rat(a)
+                    ops.append(["q_quantize", f"{other}@{u}", f"{rat(quant)}@{v}", m, d])
+            elif r < .7:
+                w = rng.choice([x for x in ctx.units if ctx.units[x]["cls"] != ctx.units[u]["cls"]] or [u])
+                ops.append(["q_quantize", f"{rat(a)}@{u}", f"{rat(abs(quant))}@{w}", m, d])
+            elif r < .75 and refless:
+                w = rng.choice(refless)
+                ops.append(["q_quantize", f"5/2@{w}", f"1@{w}", m, d])
+            else:
+                if ctx.quantum(u) is not None and not _is_dec(ctx.quantum(u)):
+                    continue    # representation of such amounts is decimalfp's business
+                n = rng.randint(-3, 6)
+                x = rng.choice([a, Fraction(rng.randint(-10 ** 7, 10 ** 7), 10 ** rng.randint(0, 8)),
+                                Fraction(2 * rng.randint(-50, 50) + 1, 2) / Fraction(10) ** n])
+                atok = rat(x) if rng.random() < .6 else "F:" + rat(x)
+                ops.append(["q_round", f"{atok}@{u}", str(n), d])
+        cases.append(_qty.case_of(ctx, ops, ["quantity-level"]))
     # zero divisors / zero quanta
     for m in ("-", "ROUND_UP"):
         cases.append({"ops": [["floordiv", "3", "0", m, "ROUND_HALF_EVEN"]],
@@ -121,7 +179,81 @@ def _expect(x, y, m, d):
     return round_ref(Fraction(x, y), mode)
 
 
+def _is_dec(x):
+    d = x.denominator
+    while d % 2 == 0:
+        d //= 2
+    while d % 5 == 0:
+        d //= 5
+    return d == 1
+
+
+def oracle_qty(case, impl):
+    ctx = _qty.ctx_of(case)
+    fails = _qty.setup_failures(case, impl)
+    for o, out in list(zip(case["ops"], impl))[case["nsetup"]:]:
+        what = str(o)
+        if o[0] == "q_quantize":
+            atok, _, u = o[1].rpartition("@")
+            qtok, _, v = o[2].rpartition("@")
+            m, d = o[3], o[4]
+            mode = d if m == "-" else m
+            cu, cv = ctx.units[u]["cls"], ctx.units[v]["cls"]
+            if cu != cv or ctx.classes[cu]["ref"] is None or ctx.units[u]["scale"] is None:
+                exp = "err TypeError"
+            else:
+                a = ctx.grid(u, _qty.tok_value(atok), d)
+                q = ctx.grid(v, _qty.tok_value(qtok), d)
+                qu = q * ctx.units[v]["scale"] / ctx.units[u]["scale"]
+                if a == 0:
+                    exp = "ok " + ctx.qty(a, u)
+                elif qu == 0:
+                    exp = None                      # a zero quantum: any error
+                    if not out.startswith("err "):
+                        fails.append({"site": "quantize:zero-quantum", "msg": f"{what} -> {out}"})
+                else:
+                    # the multiple of the quantum (in the receiver's unit) the mode selects;
+                    # a quantised type rounds the result to its own grid (C05)
+                    exp = "ok " + ctx.qty(ctx.grid(u, round_ref(a / qu, mode) * qu, d), u)
+            if exp is not None and out != exp:
+                fails.append({"site": "quantize:quantity", "msg": f"{what} -> {out}, expected {exp}"})
+        elif o[0] == "q_round":
+            atok, _, u = o[1].rpartition("@")
+            n, d = int(o[2]), o[3]
+            x = _qty.tok_value(atok)
+            a = ctx.grid(u, x, d)
+            got = _qty.parse_qty_out(out)
+            if got is None or got[1] != u or got[2] != ctx.units[u]["cls"]:
+                fails.append({"site": "round:unit", "msg": f"{what} -> {out}"})
+                continue
+            step = Fraction(10) ** (-n)
+            r = got[0]
+            held_dec = (not atok.startswith("F:") and _is_dec(x)) or ctx.quantum(u) is not None
+            if True:
+                if (r / step).denominator != 1 and ctx.quantum(u) is None:
+                    fails.append({"site": "round:multiple", "msg": f"{what} -> {out}: not a multiple of 10^-{n}"})
+                # (a Decimal amount is rounded with the configured default
+                # mode - decimalfp's documented behaviour -, so only the half
+                # modes guarantee half a unit)
+                if ctx.quantum(u) is not None:
+                    # rounded to n decimals, then to the unit's own grid (C05)
+                    exp = "ok " + ctx.qty(ctx.grid(u, round_ref(a / step, d) * step, d), u)
+                    if out != exp:
+                        fails.append({"site": "round:quantised", "msg": f"{what} -> {out}, expected {exp}"})
+                    continue
+                if abs(r - a) >= step or (("HALF" in d or not held_dec) and abs(r - a) > step / 2):
+                    fails.append({"site": "round:distance", "msg": f"{what} -> {out}: too far from the amount"})
+                # ties: a Decimal amount follows the default mode, a Fraction half-even
+                mode = d if held_dec else "ROUND_HALF_EVEN"
+                exp = "ok " + ctx.qty(round_ref(a / step, mode) * step, u)
+                if out != exp:
+                    fails.append({"site": "round:tie-rule", "msg": f"{what} -> {out}, expected {exp}"})
+    return fails
+
+
 def oracle(case, impl):
+    if "ctx" in case:
+        return oracle_qty(case, impl)
     fails = []
     last = {}
     for op, out in zip(case["ops"], impl):
@@ -160,6 +292,10 @@ def oracle(case, impl):
 
 
 def nontrivial_key(case, impl):
+    if "ctx" in case:
+        return {(o[0], o[-2] if o[0] == "q_quantize" else "", o[-1], o[1].startswith("F:"), out[:6],
+                 o[1].rpartition("@")[2])
+                for o, out in list(zip(case["ops"], impl))[case["nsetup"]:]}
     op = case["ops"][0]
     if op[0] == "floordiv":
         x, y = int(op[1]), int(op[2])
